@@ -57,6 +57,22 @@ def gen(run):
         cases.append(mk_case([("defe", "k", [], ("num", v)), ("push", ("macro", "k", []))], "unsized-emacro", N=32, v=v, kind="unsized"))
         cases.append(mk_case([("defe", "k", ["x"], G.climb([("var", "x"), "+", ("num", v)])), ("label", "z"), ("push", ("macro", "k", [("lbl", "z")])), ("op", "jumpdest", None)],
                              "unsized-emacro-label", N=32, v=v, kind="unsized"))
+    # values in (or out of) range that are reached through NEGATIVE intermediate results: a negative expression
+    # macro body, a negative macro argument, a negative label distance -- only the operand's final value counts
+    for N in ([1, 2, 32] if run.tier != "thorough" else [1, 2, 3, 8, 16, 31, 32]):
+        m = f"push{N}"
+        top = 256 ** N
+        for v in (0, 1, top - 1, top, -1):
+            neg = ("defe", "neg", [], G.climb([("num", 0), "-", ("num", 7)]))
+            cases.append(mk_case([neg, ("op", m, G.climb([("num", v + 7), "+", ("macro", "neg", [])]))], "negative-macro-body", N=N, v=v, kind="fixed"))
+            inc = ("defe", "inc", ["x"], G.climb([("var", "x"), "+", ("num", v + 3)]))
+            cases.append(mk_case([inc, ("op", m, ("macro", "inc", [G.climb([("num", 0), "-", ("num", 3)])]))], "negative-macro-argument", N=N, v=v, kind="fixed"))
+            back = ("defe", "back", [], G.climb([("lbl", "s"), "-", ("lbl", "h")]))
+            cases.append(mk_case([back, ("label", "s"), ("op", "jumpdest", None), ("label", "h"),
+                                  ("op", m, G.climb([("num", v + 1), "+", ("macro", "back", [])]))], "negative-label-distance", N=N, v=v, kind="fixed"))
+            cases.append(mk_case([neg, ("push", G.climb([("num", v + 7), "+", ("macro", "neg", [])]))], "negative-macro-body-unsized", N=32, v=v if N == 32 else None, kind="unsized"))
+            cases.append(mk_case([("defi", "im", ["a"], [("op", m, G.climb([("var", "a"), "+", ("num", v + 2)]))]), ("macro", "im", [G.climb([("num", 0), "-", ("num", 2)])])],
+                                 "negative-imacro-argument", N=N, v=v, kind="fixed"))
     for _ in range(60 if run.tier == "thorough" else 15):
         N = rng.randrange(1, 33)
         v = rng.choice([0, 1, 256 ** N - 1, 256 ** N, rng.getrandbits(8 * N), rng.getrandbits(8 * N + 3)])
@@ -91,5 +107,5 @@ def oracle(c, ans):
 def check(run):
     cases = gen(run)
     return asmfam.run_family(run, "C09", cases, oracle,
-                             "for each width N: operand 256^N-1 / 256^N as constant, arithmetic (sum and product reaching 256^N), expression macro, macro argument, negative; backward/forward labels at the push1/push2 boundary; label moved across the boundary by back-patching; %push at 2^256-1 / 2^256 / negative, products reaching 2^256 (also with a label factor); random values; distinct = distinct sources",
+                             "for each width N: operand 256^N-1 / 256^N as constant, arithmetic (sum and product reaching 256^N), expression macro, macro argument, negative; backward/forward labels at the push1/push2 boundary; label moved across the boundary by back-patching; %push at 2^256-1 / 2^256 / negative, products reaching 2^256 (also with a label factor); boundary values reached through negative intermediate results (expression macro body, macro argument, label distance, instruction macro argument); random values; distinct = distinct sources",
                              "operand range checks")
